@@ -362,20 +362,26 @@ namespace Neutrino.Wrk
 open Neutrino.Disp (Err)
 
 /-- The arms of the four selects of `worker.Run` as regenerated from the source
-on this run, and what the model derives from them: both pre-check cancel arms
-`break` out of the select into the wait loop (they neither `continue` nor
-`return`), the default arm sends the request, every wait arm that holds a job
-leaves the loop with `break Loop` and the error it stands for, `quit` returns,
-the hand-off select sends or returns on quit, and `Run` returns after an
-`ErrPeerDisconnected` result. -/
+on this run, and what the model derives from them.  A channel is named by its
+ROLE (the parameter of type `chan<- *jobResult` / `<-chan struct{}`, the
+channel obtained from `SubscribeRecvMsg()`, the result of `OnDisconnect()`,
+the `.C` of a `time.NewTimer` timer, the struct fields `nextJob`, `cancelChan`,
+`internalCancelChan`), the error is whatever is assigned to the variable that
+is stored in the `err` field of the result sent, and the wait loop's label is
+written `Loop`: no local, receiver or label name enters the facts.  Both
+pre-check cancel arms `break` out of the select into the wait loop (they
+neither `continue` nor `return`), the default arm sends the request, every wait
+arm that holds a job leaves the loop with `break Loop` and the error it stands
+for, `quit` returns, the hand-off select sends or returns on quit, and `Run`
+returns after an `ErrPeerDisconnected` result. -/
 theorem C12_worker_source_facts :
     Arms.ofSource = Arms.good ∧
-    Gen.Worker.idleArms = [("w.nextJob", "", "fall"), ("msgChan", "", "continue"),
-      ("peer.OnDisconnect()", "", "return"), ("quit", "", "return")] ∧
+    Gen.Worker.idleArms = [("nextJob", "", "fall"), ("peerMsg", "", "continue"),
+      ("peerDisconnect", "", "return"), ("quit", "", "return")] ∧
     Gen.Worker.precheckArms = [("job.cancelChan", "", "break"), ("job.internalCancelChan", "", "break"),
       ("default", "", "fall")] ∧
-    Gen.Worker.waitArms = [("msgChan", "", "finished:break Loop;unfinished:continue Loop"), ("timeout.C", "ErrQueryTimeout", "break Loop"),
-      ("peer.OnDisconnect()", "ErrPeerDisconnected", "break Loop"), ("job.cancelChan", "ErrJobCanceled", "break Loop"),
+    Gen.Worker.waitArms = [("peerMsg", "", "finished:break Loop;unfinished:continue Loop"), ("jobTimer", "ErrQueryTimeout", "break Loop"),
+      ("peerDisconnect", "ErrPeerDisconnected", "break Loop"), ("job.cancelChan", "ErrJobCanceled", "break Loop"),
       ("job.internalCancelChan", "ErrJobCanceled", "break Loop"), ("quit", "", "return")] ∧
     Gen.Worker.reportArms = [("results<-", "", "fall"), ("quit", "", "return")] ∧
     Gen.Worker.waitQuitReturns = true ∧ Gen.Worker.reportSendsOrQuits = true := by decide
